@@ -76,6 +76,9 @@ pub fn run_plan<T: HCfg>(plan: &Value, detail: u8, emit: &mut dyn FnMut(&Value))
         .cloned()
         .unwrap_or_default();
     let mut forge_n = 0u64;
+    // C16: API misuse calls inserted at random points; each carries the documented result
+    let p_misuse = pf(plan, "p_misuse", 0.0);
+    let nplayers = pu(cfg, "players", 2) as usize;
     let settle_ms = pu(plan, "settle_ms", 0);
     // faults (loss, duplication, outages) stop at this time (ms after start); 0 = never.
     // After it the run continues for `after_ms` on a perfect network (C05's settle phase).
@@ -279,6 +282,33 @@ pub fn run_plan<T: HCfg>(plan: &Value, detail: u8, emit: &mut dyn FnMut(&Value))
                 }
                 forge_n += 1;
                 steps.push(st);
+            }
+            if p_misuse > 0.0 && !w.peers[p].is_spec && rng.gen::<f64>() < p_misuse {
+                let locals = w.peers[p].locals.clone();
+                let nonlocal: Vec<usize> = (0..nplayers + 2).filter(|h| !locals.contains(h)).collect();
+                let inv = json!(["E:InvalidRequest"]);
+                match rng.gen_range(0..7) {
+                    0 => {
+                        // input for a handle that is not local (remote, spectator or unknown)
+                        let h = nonlocal[rng.gen_range(0..nonlocal.len())];
+                        steps.push(json!({"a":"addonly","p":p,"in":[[h, 1]],"expect_add":["E:InvalidRequest"]}));
+                    }
+                    1 => steps.push(json!({"a":"disc","p":p,"h":locals[rng.gen_range(0..locals.len())],"expect":inv})),
+                    2 => steps.push(json!({"a":"disc","p":p,"h":97,"expect":inv})),
+                    3 => {
+                        let h = nonlocal[rng.gen_range(0..nonlocal.len())];
+                        steps.push(json!({"a":"dly","p":p,"h":h,"d":rng.gen_range(0..4),"expect":inv}));
+                    }
+                    4 => steps.push(json!({"a":"stats","p":p,"h":locals[rng.gen_range(0..locals.len())],"expect":inv})),
+                    5 => steps.push(json!({"a":"stats","p":p,"h":98,"expect":inv})),
+                    _ => {
+                        // advance_frame with the input of one local player missing (or before
+                        // synchronisation: NotSynchronized is checked first)
+                        let ins: Vec<Value> = locals.iter().skip(1).map(|h| json!([h, cur_input[*h]])).collect();
+                        steps.push(json!({"a":"tick","p":p,"in":ins,
+                                          "expect":["E:InvalidRequest","E:NotSynchronized"]}));
+                    }
+                }
             }
             if poll_only {
                 steps.push(json!({"a":"poll","p":p}));
